@@ -1015,3 +1015,4 @@ pub fn run(segs: &[Vec<&str>]) -> String {
 
 include!("cat_gen.rs");
 include!("cat_oracle.rs");
+include!("cat_alias.rs");
